@@ -870,6 +870,8 @@ impl SvgElement {
             height = user_units(h)?;
         }
         match self.name.as_str() {
+            // (a reuse which has been given the size of its instance needs no look at its target)
+            "reuse" if width.is_some() && height.is_some() => {}
             "use" | "reuse" => {
                 let target_el = self.get_target_element(ctx)?;
                 // Take a _copy_ of the target element and evaluate attributes
